@@ -172,6 +172,7 @@ func runProfile(p *Prof, vias int, perms bool) *wkpool.CaseResult {
 	}
 	if got != nil {
 		noLines := hasNoLineLoc(p)
+		mdb := &mergeDB{profs: []*storedProf{st}}
 		for j := 0; j < p.NTypes; j++ {
 			rows, fns := pick(st, typeName(j)), fnsOf(st)
 			var orders [][]int
@@ -186,10 +187,10 @@ func runProfile(p *Prof, vias int, perms bool) *wkpool.CaseResult {
 				c.checkFlame(fl, got, j, noLines, fmt.Sprintf("single profile, %s, row order %d", typeName(j), oi))
 			}
 			if perms {
-				fl, err := viaService(&mergeDB{profs: []*storedProf{st}}, j)
+				fl, err := viaService(mdb, j)
 				c.res.RealTraces++
 				if err != nil {
-					c.viol("merge_stack_traces_failed", "%v", err)
+					c.serviceFailed(err)
 				} else {
 					c.checkFlame(fl, got, j, noLines, "single profile via MergeStackTraces, "+typeName(j))
 				}
@@ -292,6 +293,7 @@ func runMerge(profs []*Prof, cache bool) *wkpool.CaseResult {
 	}
 	noLines := hasNoLineLoc(profs...)
 	nodes := 0
+	mdb := &mergeDB{profs: sts} // one interpreter database per case, shared by both sample types and row orders
 	for j := 0; j < 2; j++ {
 		typ := typeName(j)
 		// (i) what production does: ClickHouse aggregates, MergeStackTraces lays out
@@ -307,10 +309,11 @@ func runMerge(profs []*Prof, cache bool) *wkpool.CaseResult {
 			// the first two row orders go through the real service + SQL planning + database/sql; the remaining
 			// permutations of the same aggregated rows go straight to MergeTrie/BFS (the only code that sees them)
 			if oi < 2 {
-				fl, err := viaService(&mergeDB{profs: sts, perm: o, revFns: oi%2 == 1}, j)
+				mdb.perm, mdb.revFns = o, oi%2 == 1
+				fl, err := viaService(mdb, j)
 				c.res.RealTraces++
 				if err != nil {
-					c.viol("merge_stack_traces_failed", "%v", err)
+					c.serviceFailed(err)
 					continue
 				}
 				c.checkFlame(fl, want, j, noLines, fmt.Sprintf("MergeStackTraces %s, aggregated row order %d", typ, oi))
@@ -431,10 +434,10 @@ func main() {
 		"frames, plus stacks through a location without lines, a 2-line (inlined) location, and the empty stack) x every assignment of values {0,1,5} " +
 		"per sample and sample type (1-2 types), pushed through the exported parsers (binary raw; for the k<=2 families also binary gzip and multipart), " +
 		"ProcessRequest, block decode; phase 2: every ordered sequence of 1-3 profiles from a fixed pool (= every multiset in every merge order) merged " +
-		"(a) by the emulated ClickHouse aggregation + real MergeStackTraces, (b) one MergeTrie per profile, (c) one MergeTrie over the concatenated rows, " +
+		"(a) by the real MergeStackTraces whose SQL text is executed by mc/chsim over the stored rows, (b) one MergeTrie per profile, (c) one MergeTrie over the concatenated rows, " +
 		"each with every row permutation when <=4 rows (4 fixed orders otherwise). Distinct = hash of the profile model / of the sequence."
 	r.Assumptions = []string{
-		"ClickHouse evaluates the merge query as written: arrayFirst picks the first value tuple whose name equals the sample type (default tuple if none), ARRAY JOIN + GROUP BY (parent, function, node) sums self and total, groupArray returns the groups in an unspecified order, groupUniqArrayArray the distinct functions",
+		"the statement MergeStackTraces sends is executed by the ClickHouse-subset interpreter mc/chsim over the stored profiles_input rows and the tables derived from them by the schema's materialized views (fingerprint and time-window selection included); chsim's reading of arrayFirst/arrayMap/ARRAY JOIN/GROUP BY/groupArray/groupUniqArrayArray is the trusted base; the order of groupArray/groupUniqArrayArray results is unspecified, so the returned arrays are additionally permuted; a statement chsim cannot evaluate ends the run with exit 2 (no verdict)",
 		"node ids (55-bit city hash of parent, function, depth) do not collide inside the enumerated space",
 		"for a location with several lines the statement does not say whether inlined callers become frames: both the one-frame-per-location trie and the fully expanded trie are accepted",
 		"zero-weight nodes carry no information: their presence in the flame graph is not required, only that they nest",
@@ -477,6 +480,9 @@ func main() {
 			fmt.Printf("observation: %s=%d\n", k, v)
 		}
 		for _, v := range res.Viols {
+			if v.Class == harnessClass {
+				ev.Fatal("%s", v.What)
+			}
 			r.Violate(v.Class, v.What, doc.Replay)
 		}
 		r.Finish()
@@ -496,6 +502,8 @@ func main() {
 		r.Sample(map[string]any{"merge_sequence": sp.seqAt(k), "profiles": ps})
 	}
 	counters := map[string]int64{}
+	var harnessErrs []string
+	nHarness := 0
 	sink := wkpool.Sink{
 		Stats: func(s *wkpool.Stats) {
 			r.AddEval(s.Evals)
@@ -513,6 +521,14 @@ func main() {
 			}
 		},
 		Violation: func(v *wkpool.Viol) {
+			if v.Class == harnessClass {
+				// the machinery could not evaluate something: never a verdict
+				if len(harnessErrs) < 5 {
+					harnessErrs = append(harnessErrs, fmt.Sprintf("case %d: %s", v.Idx, v.What))
+				}
+				nHarness++
+				return
+			}
 			var rep any
 			json.Unmarshal(v.Replay, &rep)
 			r.Violate(v.Class, v.What, rep)
@@ -529,6 +545,9 @@ func main() {
 	}
 	if err := wkpool.Parent(sp.total, wkpool.Options{Workers: workers, Deadline: r.Deadline, Args: os.Args[1:], Env: []string{"TZ=UTC"}, MemKB: 4 << 20}, sink); err != nil {
 		ev.Fatal("%v", err)
+	}
+	if nHarness > 0 {
+		ev.Fatal("%d cases could not be evaluated by the machinery (no verdict); first ones: %s", nHarness, strings.Join(harnessErrs, " || "))
 	}
 	r.States = r.Evaluations
 	r.Transitions = r.TracesValidated
